@@ -55,7 +55,8 @@ with the dense index (0, .., 5): all 32 compositions of the 6 rows into consecut
 known and with unknown divisions, x ``npartitions`` 1..8, and (known divisions, sparse index) x all 16 target division
 vectors drawn from the index values (first and last kept); every pair (source partition count o <= 32 [thorough 48],
 target n < o) on a RangeIndex frame with one row per source partition (known / unknown divisions alternating) — the
-partition-boundary arithmetic of ``RepartitionToFewer`` is float based.  Thorough additionally: all 512 known-division sources over
+partition-boundary arithmetic of ``RepartitionToFewer`` is float based; every pair (n <= 24 [48] rows in ONE partition with
+unknown divisions, k in 2..26 [50] pieces) of ``RepartitionToMore`` -- the cut points of ``split_evenly`` are float based, too.  Thorough additionally: all 512 known-division sources over
 the grid 10, 15, .., 60 (these contain empty partitions) x npartitions 1..8 and x the 16 target vectors, and the
 duplicate index (1, 1, 2, 3, 3, 3) with all valid sources and targets (incl. a repeated last division).
 
@@ -126,13 +127,16 @@ FLOORS["quick"]["counters"].update({'npartitions_callable': 57, 'force_with_npar
 FLOORS["thorough"]["counters"].update({'npartitions_callable': 855, 'force_with_npartitions_or_size': 675, 'divisions_as_tuple': 1395, 'divisions_via_function': 990, 'divisions_float_on_int_index': 225, 'pandas_object_divisions': 690, 'freq_calendar_offset': 300, 'freq_timedelta': 90, 'from_pandas_sort_unsorted': 405, 'source_after_filter': 1905, 'post_filter': 720, 'post_projection': 750, 'after_error_followup': 1095, 'sibling_partition_size': 2190, 'siblings_built': 13500, 'siblings_computed_together': 6225, 'siblings_with_different_values': 4950})
 FLOORS["quick"]["counters"].update({"divisions_force": 150, "divisions_outer_changed": 140, "expected_error": 75})
 FLOORS["thorough"]["counters"].update({"divisions_force": 2500, "divisions_outer_changed": 2300, "expected_error": 1200})
+FLOORS["quick"]["counters"]["pieces_space_checked"] = 300
+FLOORS["thorough"]["counters"]["pieces_space_checked"] = 1150
 FLOORS["quick"]["sets"]["target_feature"] = 16
 FLOORS["thorough"]["sets"]["target_feature"] = 17
 EXHAUSTIVE_SPACE = {
     "quick": "6-row frames with index (10..60 step 10) and (0..5): all 32 compositions into non-empty source partitions x "
              "{known, unknown divisions} x repartition(npartitions=1..8); known sparse sources x all 16 target division "
-             "vectors drawn from the index values; all (source partition count o<=32, target npartitions n<o) pairs",
-    "thorough": "quick space (count pairs up to o<=48) + all 512 known-division sources over the grid 10,15,..,60 (with empty partitions) x "
+             "vectors drawn from the index values; all (source partition count o<=32, target npartitions n<o) pairs; all "
+             "(rows n<=24 in ONE partition, pieces k in 2..26) pairs of RepartitionToMore",
+    "thorough": "quick space (count pairs up to o<=48, (rows, pieces) pairs up to n<=48, k<=50) + all 512 known-division sources over the grid 10,15,..,60 (with empty partitions) x "
                 "npartitions 1..8 and x the 16 target division vectors; duplicate index (1,1,2,3,3,3): all 4 valid sources "
                 "(incl. repeated last division) x npartitions 1..8 and x the same 4 vectors as targets",
 }
@@ -194,6 +198,12 @@ def cases(tier, seed):
     for o in range(2, omax + 1):
         for n in range(1, o):
             yield {"space": "exhaustive", "e": "range", "o": o, "known": (o + n) % 2 == 0, "t": {"k": "npartitions", "n": n}}
+    # ---- complete sub-space: one partition of n rows (unknown divisions) cut into k pieces -- the cut points of
+    # split_evenly are float based, like the boundaries of RepartitionToFewer
+    nmax, kmax = (24, 26) if tier == "quick" else (48, 50)
+    for n in range(1, nmax + 1):
+        for k in range(2, kmax + 1):
+            yield {"space": "exhaustive", "e": "pieces", "rows": n, "t": {"k": "npartitions", "n": k}}
     if tier == "thorough":
         for inner in _subsets(E_GRID[1:-1]):
             sd = [E_GRID[0]] + list(inner) + [E_GRID[-1]]
@@ -401,6 +411,10 @@ def build(case):
     from vf.gen import frames as F
 
     F.setup()
+    if case.get("e") == "pieces":
+        n = case["rows"]
+        pdf = pd.DataFrame({"x": [(5 * i) % n for i in range(n)]}, index=pd.RangeIndex(n))
+        return {"pdf": pdf, "src": F.partition(pdf, {"how": "npartitions", "n": 1, "clear": True}), "kind": "range"}
     if case.get("e") == "range":
         o = case["o"]
         pdf = pd.DataFrame({"x": [(7 * i) % o for i in range(o)]}, index=pd.RangeIndex(o))
@@ -807,6 +821,8 @@ def _run(case, ctx):
         ctx.count("post_filter" if post in ("a>=2", "e") else "post_projection")
     ctx.nontrivial = len(pdf) >= 2 and (srcnp >= 2 or len(parts) >= 2)
     ctx.count("results_checked")
+    if case.get("e") == "pieces":
+        ctx.count("pieces_space_checked")
     ctx.count("partitions_observed", len(parts))
     ctx.distinct("target_feature", feat)
     # ---- rows and order ----------------------------------------------------------------------------------------
